@@ -195,6 +195,26 @@ class Monitor:
                 self.add("C07", "not-until",
                          f"{sid}@{tt} has no trigger inputs but max_advance {madv} != until {until}",
                          sim=sid)
+            # the promise must stop short of every time at which a step that an ancestor still
+            # has to perform (demanded or in flight) could trigger this simulator: mosaik cannot
+            # know that such a step will stay silent, and for the simulator behaviour in which it
+            # does not, the promise would be broken
+            pot = []
+            for q in T.sims:
+                if q == sid:
+                    continue
+                xs = [x for x in self.pending(q) if x[0] < until]
+                if q in self.cur:
+                    xs.append(self.cur[q][1])
+                for x in xs:
+                    p = T.earliest_trigger(q, sid, x)
+                    if p is not None and t < p < until:
+                        pot.append((p, q, x))
+            if pot and madv >= min(pot)[0]:
+                p, q, x = min(pot)
+                self.add("C07", "promise-ignores-pending-ancestor-step",
+                         f"{sid}@{tt} is promised max_advance={madv} although the step {x} that "
+                         f"{q} still has to finish can trigger it at time {p}", sim=sid, other=q)
         causes = set(D[sid].get(tt, set()))
         self.stepcause[(sid, tt)] = causes
         for (ptt, pm) in self.promises.get(sid, []):
@@ -477,6 +497,12 @@ class Monitor:
                         self.add("C09", "over-limit-step-executed",
                                  f"{sid} executed sub-step(s) {ex[:2]} beyond the limit", sim=sid)
         else:
+            for sid, bad in exp_loop.items():
+                ex = [x for x in bad if x in self.Xset[sid]]
+                if ex:
+                    self.add("C09", "over-limit-step-executed",
+                             f"{sid} executed sub-step(s) {ex[:2]} beyond max_loop_iterations="
+                             f"{T.max_loop} (run() ended with {result[:2]})", sim=sid)
             cls = None
             if result[0] == "deadlock" and self.cfg.get("lazy", True) and T.group_reentry():
                 cls = "lazy-wait-across-group-reentry"
